@@ -451,6 +451,44 @@ func storeDomain(lines []string) []string {
 			} else {
 				out = append(out, "load "+string(off))
 			}
+		case "streamtwice":
+			// range twice over ONE iterator value obtained from ReadStream: both passes start at the requested offset
+			str, isStr := sc.cur.st.(eb.EventStoreStreamer)
+			from, ok := sc.resolveOff(f[1])
+			if !isStr || !ok {
+				out = append(out, "streamtwice skip")
+				continue
+			}
+			seq := str.ReadStream(ctx, from)
+			var p1, p2 []*eb.StoredEvent
+			for e, err := range seq {
+				if err != nil {
+					break
+				}
+				p1 = append(p1, e)
+			}
+			for e, err := range seq {
+				if err != nil {
+					break
+				}
+				p2 = append(p2, e)
+			}
+			r1, _ := showEvs(p1, sc.cur.padded)
+			r2, _ := showEvs(p2, sc.cur.padded)
+			same := r1 == r2
+			out = append(out, fmt.Sprintf("streamtwice n=%d same=%s", len(p1), b01(same)))
+		case "appendnil":
+			// an event without a payload is not a JSON document: the SQLite store refuses it and the log stays readable
+			if sc.kind != "sqlite" {
+				out = append(out, "appendnil skip")
+				continue
+			}
+			_, err := sc.cur.st.Append(ctx, &eb.Event{Type: "nil.payload", Data: nil, Timestamp: tsPool[0]})
+			if err != nil {
+				out = append(out, "appendnil err")
+			} else {
+				out = append(out, "appendnil accepted")
+			}
 		case "busreplay":
 			// Replay on the instance's own publishing bus (whose idea of "the last offset" is its own last append)
 			from, ok := sc.resolveOff(f[1])
@@ -521,6 +559,11 @@ func storeDomain(lines []string) []string {
 						time.Sleep(2 * time.Millisecond)
 					}
 					if k == cbFail {
+						if k%2 == 1 {
+							// a failure of the callback's own making that happens to be a context error (a timeout of a
+							// downstream call, not of the replay's context)
+							return fmt.Errorf("downstream call: %w", context.DeadlineExceeded)
+						}
 						return errors.New("callback failure")
 					}
 					return nil
@@ -598,6 +641,21 @@ func storeDomain(lines []string) []string {
 					seen[o] = true
 					prev = o
 					at[identify(e, sc.cur.padded)] = o
+				}
+				if verdict == "raceappend ok" {
+					// resume from returned next offsets with a small limit: the chain must reach the end of the log
+					n, from := 0, eb.OffsetOldest
+					for i := 0; i < len(evs)+3; i++ {
+						page, next, err := sc.cur.st.Read(ctx, from, 7)
+						if err != nil || len(page) == 0 {
+							break
+						}
+						n += len(page)
+						from = next
+					}
+					if n != len(evs) {
+						verdict = fmt.Sprintf("!raceappend the log holds %d events but a chain of Read(next, 7) calls stops after %d", len(evs), n)
+					}
 				}
 				for rec, off := range acked {
 					if got, ok := at[fmt.Sprint(rec)]; !ok {
